@@ -454,12 +454,19 @@ func c20Patterns(e *c20Env) {
 	ctA := fpgo.DefSum(fpgo.DefProduct(reflect.Int), fpgo.DefProduct(reflect.String, reflect.Int), fpgo.NilType)
 	sumB := c20SumModel{products: [][]reflect.Kind{{reflect.Struct}, {reflect.Ptr}, {reflect.Slice, reflect.Map}}}
 	ctB := fpgo.DefSum(fpgo.DefProduct(reflect.Struct), fpgo.DefProduct(reflect.Ptr), fpgo.DefProduct(reflect.Slice, reflect.Map))
+	sumE := c20SumModel{products: [][]reflect.Kind{{reflect.Map}, {reflect.Func}, {reflect.Int, reflect.Map}, {reflect.Chan, reflect.Slice}}}
+	ctE := fpgo.DefSum(fpgo.DefProduct(reflect.Map), fpgo.DefProduct(reflect.Func), fpgo.DefProduct(reflect.Int, reflect.Map), fpgo.DefProduct(reflect.Chan, reflect.Slice))
 	sumC := c20SumModel{hasNil: true}
 	var ctC fpgo.CompType = fpgo.NilType
 	params := [][]c20Pat{
 		{{kind: "Kind", k: reflect.Int}, {kind: "Sum", sum: sumA, sumCT: ctA}, {kind: "Equal", eq: 5}, {kind: "Regex", re: "^a.c$"}, {kind: "Otherwise"}},
 		{{kind: "Kind", k: reflect.Struct}, {kind: "Sum", sum: sumB, sumCT: ctB}, {kind: "Equal", eq: "abc"}, {kind: "Regex", re: "[0-9]+"}, {kind: "Otherwise"}},
 		{{kind: "Kind", k: reflect.Ptr}, {kind: "Sum", sum: sumC, sumCT: ctC}, {kind: "Equal", eq: c20S{1}}, {kind: "Regex", re: "^$"}, {kind: "Otherwise"}},
+		// nil-able kinds other than pointers (a typed nil map / func / chan / slice is a VALUE of its kind), and a regex
+		// without metacharacters against texts that are not valid UTF-8 (the regexp package decodes an invalid byte as U+FFFD)
+		{{kind: "Kind", k: reflect.Map}, {kind: "Sum", sum: sumE, sumCT: ctE}, {kind: "Equal", eq: "caf\xe9"}, {kind: "Regex", re: "\ufffd"}, {kind: "Otherwise"}},
+		{{kind: "Kind", k: reflect.Func}, {kind: "Sum", sum: sumE, sumCT: ctE}, {kind: "Equal", eq: 0}, {kind: "Regex", re: "\xff"}, {kind: "Otherwise"}},
+		{{kind: "Kind", k: reflect.Chan}, {kind: "Sum", sum: sumC, sumCT: ctC}, {kind: "Equal", eq: "\xff"}, {kind: "Regex", re: "caf\u00e9"}, {kind: "Otherwise"}},
 	}
 	i7 := 7
 	var nilInt *int
@@ -494,6 +501,16 @@ func c20Patterns(e *c20Env) {
 	add("[]int(nil)", []int(nil))
 	add("map", map[string]int{"a": 1})
 	add("[2]int", [2]int{1, 2})
+	add("map(nil)", map[string]int(nil))
+	add("func(nil)", (func())(nil))
+	add("func", func() {})
+	add("chan(nil)", (chan int)(nil))
+	add("chan", make(chan int))
+	add(`"caf\xe9" (invalid UTF-8)`, "caf\xe9")
+	add(`"\xff"`, "\xff")
+	add(`"a\xffb"`, "a\xffb")
+	add(`"\ufffd"`, "\ufffd")
+	add(`"café"`, "caf\u00e9")
 	add("struct{}{}", struct{}{})
 	add("error", errors.New("e"))
 	addComp := func(desc string, ct fpgo.CompType, vals ...any) {
@@ -511,6 +528,10 @@ func c20Patterns(e *c20Env) {
 	addComp("B(&S{1})", ctB, &c20S{1})
 	addComp("B([]int,map)", ctB, []int{1}, map[int]int{})
 	addComp("C(nil ptr)", ctC, nilInt)
+	addComp("E(nil map)", ctE, map[string]int(nil))
+	addComp("E(1, nil map)", ctE, 1, map[string]int(nil))
+	addComp("E(nil chan, nil slice)", ctE, (chan int)(nil), []int(nil))
+	addComp("E(nil func)", ctE, (func())(nil))
 
 	// every permutation of every subset of the five kinds
 	var orders [][]int
@@ -693,9 +714,10 @@ func c20Patterns(e *c20Env) {
 		{"D nested three first", fpgo.DefSum(fpgo.DefSum(pI, pSI, pB), pF, fpgo.NilType), sumD},
 		{"D two levels", fpgo.DefSum(fpgo.DefSum(fpgo.DefSum(pI, pSI), pB), pF, fpgo.NilType), sumD},
 		{"D two nested", fpgo.DefSum(fpgo.DefSum(pI, pSI), fpgo.DefSum(pB, pF), fpgo.NilType), sumD},
+		{"E nil-able kinds", ctE, sumE},
 		{"D singletons", fpgo.DefSum(fpgo.DefSum(pI), fpgo.DefSum(pSI), pB, fpgo.DefSum(pF), fpgo.DefSum(fpgo.NilType)), sumD},
 	}
-	tuples := [][]any{{}, {5}, {"s"}, {"s", 1}, {1, "s"}, {nil}, {nilInt}, {c20S{1}}, {&c20S{1}}, {[]int{1}, map[int]int{}}, {[]int{1}}, {5, 5}, {5.0}, {nil, nil}, {true}, {false}, {1.5}, {true, 1}, {uint(1)}}
+	tuples := [][]any{{}, {5}, {"s"}, {"s", 1}, {1, "s"}, {nil}, {nilInt}, {c20S{1}}, {&c20S{1}}, {[]int{1}, map[int]int{}}, {[]int{1}}, {5, 5}, {5.0}, {nil, nil}, {true}, {false}, {1.5}, {true, 1}, {uint(1)}, {map[string]int(nil)}, {1, map[string]int(nil)}, {(func())(nil)}, {(chan int)(nil), []int(nil)}, {map[string]int{}}, {1, map[int]int{}}}
 	// the nested groupings also as InCaseOfSumType patterns: the first accepting pattern is the sum, whatever its grouping
 	for _, ct := range cts[3:] {
 		for _, t := range tuples {
@@ -969,7 +991,7 @@ func init() {
 			return core.Meta{
 				Level: "exploration",
 				Rule: "Compose/Pipe: all 5460 function lists of length 1..6 over 4 distinguishable non-commuting functions x 3 argument tuples, output compared with the fold, Compose(fs)=Pipe(reverse fs), every regrouping; adapters with recording functions; Trampoline with scripted done/error at step 1..12; CurryDef sequentially (1..6 calls x MarkDone position) and concurrently (2..8 goroutines, unique chunks, chain oracle; repeated in the -race build); " +
-					"patterns: every permutation of every subset of the five pattern kinds (326 lists) x 3 parameterisations x ~40 probe values of every kind through MatchFor/Either against the harness' own acceptance model (first accepting pattern's effect, applied to the value, panic iff none); effects that panic (directly or through a nested match that accepts nothing) at every position: the panic reaches the caller and no later pattern is applied; Equal patterns holding pointers / structs with pointer fields (identity, not deep equality); NewCompData and InCaseOfSumType against the declared type, for flat sums and for 7 nested groupings of the same five alternatives (nested first / middle / last, two levels, two nested, singletons); CurryDef whose function reads its own Result()/IsDone() while invoked (1..16 goroutines, termination by the stuck detector). distinct_nontrivial = enumerated cases (distinct by construction) + distinct concurrent scenarios",
+					"patterns: every permutation of every subset of the five pattern kinds (326 lists) x 6 parameterisations x ~40 probe values of every kind through MatchFor/Either against the harness' own acceptance model (first accepting pattern's effect, applied to the value, panic iff none); effects that panic (directly or through a nested match that accepts nothing) at every position: the panic reaches the caller and no later pattern is applied; Equal patterns holding pointers / structs with pointer fields (identity, not deep equality); NewCompData and InCaseOfSumType against the declared type, for flat sums and for 7 nested groupings of the same five alternatives (nested first / middle / last, two levels, two nested, singletons); CurryDef whose function reads its own Result()/IsDone() while invoked (1..16 goroutines, termination by the stuck detector). distinct_nontrivial = enumerated cases (distinct by construction) + distinct concurrent scenarios",
 				Assumptions: []string{"MatchFor replaces a non-nil pointer-to-struct probe by its pointee before matching and applying (pinned, DESIGN.md C20)",
 					"nil values incl. typed nil pointers never match a Kind pattern; a CompData value is matched through its objects only",
 					"Equal patterns hold comparable values", "Calls concurrent with MarkDone may or may not be counted; Calls begun after MarkDone returned must not invoke fn"},
